@@ -17,7 +17,7 @@ RULE = ('`python -m pyx12.scripts.x12norm` is run as a subprocess (one process p
         'Every sixth step the last 2-3 inputs are also normalised in ONE invocation (separate arguments in place, to stdout, or through a glob pattern in place); each result must equal the single-file run. non-trivial = distinct (document, option set) pairs; for the repair part those with >=1 perturbed counter.')
 ASSUMPTIONS = ['input files are ASCII (the tool opens files as ASCII by design); --output with several input files (each overwrites the last) is not judged',
                'a segment without any element is not generated (format() writes "SE*~" for "SE~")', 'the exit status and log lines on stderr are not judged']
-REQUIRED_COUNTERS = ['inputs:longer-than-one-read-buffer:inplace', 'inputs:longer-than-one-read-buffer:output', 'inputs:longer-than-one-read-buffer:stdout', 'invocations', 'mode:stdout', 'mode:output', 'mode:inplace', 'opt:eol', 'opt:fixcounting', 'idempotence-checked', 'repairs-checked', 'perturbed-counters', 'inputs:line-break-character-as-terminator', 'inputs:terminator-at-read-boundary', 'inputs:trailer-whose-true-count-is-zero', 'multi-file-invocations', 'multi-file:later-output-shorter', 'multi-file:inplace', 'multi-file:stdout', 'multi-file:inplace-glob']
+REQUIRED_COUNTERS = ['inputs:longer-than-one-read-buffer:inplace', 'inputs:longer-than-one-read-buffer:output', 'inputs:longer-than-one-read-buffer:stdout', 'invocations', 'mode:stdout', 'mode:output', 'mode:inplace', 'opt:eol', 'opt:fixcounting', 'idempotence-checked', 'repairs-checked', 'perturbed-counters', 'inputs:line-break-character-as-terminator', 'inputs:terminator-at-read-boundary', 'inputs:isa-field-ending-in-component-separator', 'inputs:trailer-whose-true-count-is-zero', 'multi-file-invocations', 'multi-file:later-output-shorter', 'multi-file:inplace', 'multi-file:stdout', 'multi-file:inplace-glob']
 MIN_CASES = {'quick': 120, 'thorough': 3000}
 WATCHDOG_S = {'quick': 1200, 'thorough': 7200}
 
@@ -251,6 +251,17 @@ def run(ctx):
             brk = rng.choice(['', '\n', '\r\n', '\n\n']) if terms[0] not in '\r\n' else ''
             if terms[0] in '\r\n':
                 ctx.count('inputs:line-break-character-as-terminator')
+            if k % 5 == 1:
+                # the component separator is ordinary data inside the ISA, also as the LAST character of a field
+                doc = faults.clone(doc)
+                for r_ in doc.recs:
+                    if r_.node.id == 'ISA':
+                        r_.vals[rng.choice([1, 3, 5, 7])] = None
+                        for q_ in (1, 3, 5, 7):
+                            if r_.vals[q_] is None:
+                                w_ = 10 if q_ in (1, 3) else 15
+                                r_.vals[q_] = 'SECRET'.ljust(w_ - 1) + terms[2]
+                ctx.count('inputs:isa-field-ending-in-component-separator')
             text = doc.text(terms[0], terms[1], terms[2], brk)
             if fix and rng.random() < 0.25:
                 # a functional group without any transaction set (GE declares 1, the true count is 0) in front of the last IEA, whose own count is
